@@ -126,7 +126,20 @@ func (g *PG) Expr(depth int, sc scope) types.MalType {
 		}
 		return g.Lit()
 	}
-	switch g.R.Intn(23) {
+	switch g.R.Intn(24) {
+	case 23: // = on quoted data that holds symbols and nested collections: the same data written twice is equal wherever it was written
+		g.tag("equal-on-quoted-data")
+		d := []types.MalType{V(S("a"), S("b")), V(S("k"), L(1, 2), V(3)), L(S("a"), V(S("b"))), V(V(S("x")))}[g.R.Intn(4)]
+		var other types.MalType = Q(d)
+		switch g.R.Intn(3) {
+		case 0:
+			if v, ok := d.(types.Vector); ok {
+				other = Q(types.List{Val: v.Val}) // a list and a vector with equal elements are equal
+			}
+		case 1:
+			other = Call("let", V(S("same"), Q(d)), S("same"))
+		}
+		return Call("list", Call("=", Q(d), other), Call("=", other, Q(d)), Call("=", Call("vector", Q(d)), Call("vector", other)))
 	case 22: // a def inside a function body binds in the scope of THAT call (also for a call without parameters): invisible outside, the outer binding untouched
 		n, k := g.fresh("dn"), g.R.Intn(3)
 		var params, args []types.MalType
